@@ -69,6 +69,8 @@ type TermCtx struct {
 	busy  map[ssa.Value]bool
 	// localVal resolves a load from a local Alloc to the term last stored on the path (set by the path executor)
 	localVal func(a *ssa.Alloc) *Term
+	// loadVer returns how many times the address (by key) has been stored to so far on the current path
+	loadVer func(addrKey string) int
 }
 
 func newTermCtx(p *Program) *TermCtx {
@@ -226,8 +228,18 @@ func (c *TermCtx) build(v ssa.Value) *Term {
 	case *ssa.UnOp:
 		switch v.Op {
 		case token.MUL: // load
-			if a, ok := v.X.(*ssa.Alloc); ok && c.localVal != nil {
-				if t := c.localVal(a); t != nil {
+			if a, ok := v.X.(*ssa.Alloc); ok {
+				if c.localVal != nil {
+					if t := c.localVal(a); t != nil {
+						return t
+					}
+				}
+				if sv := singleAssigned(a); sv != nil {
+					return c.Of(sv)
+				}
+			}
+			if fv, ok := v.X.(*ssa.FreeVar); ok {
+				if t := outerParamOf(fv); t != nil {
 					return t
 				}
 			}
@@ -235,6 +247,12 @@ func (c *TermCtx) build(v ssa.Value) *Term {
 			// loads are transparent for field/index/global/free addresses
 			switch x.Op {
 			case "field", "index", "global", "free":
+				if c.loadVer != nil {
+					if n := c.loadVer(x.Key()); n > 0 {
+						// the location was overwritten earlier on this path: a distinct value
+						return mk("ver", fmt.Sprintf("%d", n), v, x)
+					}
+				}
 				return x
 			}
 			return mk("load", "", v, x)
@@ -477,12 +495,22 @@ func pureLibrary(f *ssa.Function) bool {
 // ---------------------------------------------------------------------------
 // pattern helpers over terms
 
+// unver strips the "overwritten earlier on this path" marker of a load.
+func (t *Term) unver() *Term {
+	for t != nil && t.Op == "ver" {
+		t = t.Args[0]
+	}
+	return t
+}
+
 func (t *Term) isConst(s string) bool { return t != nil && t.Op == "const" && t.Sym == s }
 func (t *Term) isOp(op, sym string) bool {
 	return t != nil && t.Op == op && (sym == "" || t.Sym == sym)
 }
 func (t *Term) isBin(op string) bool { return t != nil && t.Op == "bin" && t.Sym == op }
-func (t *Term) isParam(i int) bool  { return t != nil && t.Op == "param" && t.Sym == fmt.Sprintf("%d", i) }
+func (t *Term) isParam(i int) bool {
+	return t != nil && t.Op == "param" && t.Sym == fmt.Sprintf("%d", i)
+}
 
 // isFieldOf: t == field(name) of base
 func (t *Term) isField(name string) bool { return t != nil && t.Op == "field" && t.Sym == name }
@@ -525,7 +553,7 @@ func (t *Term) hasLoad() bool {
 	found := false
 	t.walk(func(x *Term) bool {
 		switch x.Op {
-		case "field", "index", "global", "load", "call", "invoke", "dyncall", "lookup", "free", "builtin":
+		case "field", "index", "global", "load", "call", "invoke", "dyncall", "lookup", "free", "builtin", "ver":
 			// field of a parameter struct VALUE is still a read, keep it conservative
 			found = true
 			return false
@@ -588,4 +616,98 @@ func (l *Linear) Key() string {
 	}
 	sort.Strings(ks)
 	return fmt.Sprintf("%s %+d", strings.Join(ks, " "), l.Const)
+}
+
+// singleAssigned: the only value ever stored into a local variable cell (e.g. a
+// parameter spilled because a closure captures it), or nil.
+func singleAssigned(a *ssa.Alloc) ssa.Value {
+	var val ssa.Value
+	n := 0
+	if a.Referrers() == nil {
+		return nil
+	}
+	for _, r := range *a.Referrers() {
+		switch r := r.(type) {
+		case *ssa.Store:
+			if r.Addr == ssa.Value(a) {
+				n++
+				val = r.Val
+			} else {
+				return nil // address stored somewhere
+			}
+		case *ssa.UnOp, *ssa.DebugRef:
+		case *ssa.MakeClosure:
+			// the closure must not write the captured variable
+			fn := r.Fn.(*ssa.Function)
+			for i, b := range r.Bindings {
+				if b != ssa.Value(a) {
+					continue
+				}
+				fv := fn.FreeVars[i]
+				if fv.Referrers() != nil {
+					for _, fr := range *fv.Referrers() {
+						switch fr := fr.(type) {
+						case *ssa.UnOp, *ssa.DebugRef:
+						case *ssa.Store:
+							if fr.Addr == ssa.Value(fv) {
+								return nil
+							}
+							return nil
+						default:
+							return nil
+						}
+					}
+				}
+			}
+		default:
+			return nil
+		}
+	}
+	if n == 1 {
+		return val
+	}
+	return nil
+}
+
+// outerParamOf: a captured variable that is a never-reassigned parameter of the
+// enclosing function is represented as oparam:<index> inside the closure.
+func outerParamOf(fv *ssa.FreeVar) *Term {
+	fn := fv.Parent()
+	parent := fn.Parent()
+	if parent == nil {
+		return nil
+	}
+	idx := -1
+	for i, x := range fn.FreeVars {
+		if x == fv {
+			idx = i
+		}
+	}
+	for _, b := range parent.Blocks {
+		for _, in := range b.Instrs {
+			mc, ok := in.(*ssa.MakeClosure)
+			if !ok || mc.Fn != ssa.Value(fn) || idx >= len(mc.Bindings) {
+				continue
+			}
+			a, ok := mc.Bindings[idx].(*ssa.Alloc)
+			if !ok {
+				return nil
+			}
+			sv := singleAssigned(a)
+			if p, ok := sv.(*ssa.Parameter); ok {
+				for i, pp := range parent.Params {
+					if pp == p {
+						return mk("oparam", fmt.Sprintf("%d", i), fv)
+					}
+				}
+			}
+			return nil
+		}
+	}
+	return nil
+}
+
+// isRecv: the receiver of the method under analysis (also when seen from inside one of its closures).
+func (t *Term) isRecv() bool {
+	return t != nil && (t.Op == "param" || t.Op == "oparam") && t.Sym == "0"
 }
